@@ -272,7 +272,8 @@ def rule_decode_side(repo, res):
         res.add(Finding("LEAP", "PVLDecoder.is_leap_seconds", "None guard", "is_leap_seconds no longer guards against grammars "
                         "without leap-second patterns (ODL, PDS3): AttributeError on every non-date value",
                         where=f"pvl/decoder.py:{fn.lineno}"))
-    uses = {norm(n) for n in ast.walk(fn) if isinstance(n, ast.Attribute) and norm(n).startswith("self.grammar.leap_second")}
+    uses = {norm(n) for n in ast.walk(fn) if isinstance(n, ast.Attribute) and norm(n).startswith("self.grammar.leap_second")
+            and norm(n).count(".") == 2}
     ok = uses == {"self.grammar.leap_second_Ymd_re", "self.grammar.leap_second_Yj_re"}
     res.oblige("LEAP", "PVLDecoder.is_leap_seconds consults both leap-second patterns (calendar and day-of-year)", ok=ok)
     if not ok:
